@@ -258,7 +258,7 @@ def f_atomic_take(P, E):
             if len(s["lhs"]) > 1 and any(rk == "param" and rd == 1 and path[:1] == ("inner",) and len(path) == 1
                                           for (rk, rd, path) in b.place_prov(s["lhs"])):
                 stores.append((i, j))
-            if s["rv"]["k"] == "discr" and any(rk == "param" and rd == 1 and path == ("inner",)
+            if s["rv"]["k"] == "discr" and "*" in s["rv"]["p"] and any(rk == "param" and rd == 1 and path == ("inner",)
                                                 for (rk, rd, path) in b.place_prov(s["rv"]["p"])):
                 tests.append((i, j))
     for c in b.calls:
@@ -319,18 +319,16 @@ def _gate_true_blocks(b):
             gates.append(c)
     out = []
     for g in gates:
-        # the switch that consumes the result
-        tb = g.target
-        t = b.blocks[tb]["term"]
-        hops = 0
-        while t["k"] != "switch" and hops < 3 and t["k"] == "goto":
-            tb = t["target"]
+        # every switch whose discriminant is (a copy of) the gate's result
+        for tb in sorted(b.reach):
             t = b.blocks[tb]["term"]
-            hops += 1
-        if t["k"] != "switch":
-            continue
-        d = t["discr"]
-        if d["k"] in ("copy", "move") and d["p"][0] == g.dest[0]:
+            if t["k"] != "switch":
+                continue
+            d = t["discr"]
+            if d["k"] not in ("copy", "move"):
+                continue
+            if not any(rk == "ret" and rd == g.bb and not path for (rk, rd, path) in b.operand_prov(d)):
+                continue
             false_t = [bb for v, bb in t["targets"] if v == 0]
             true_t = t["otherwise"]
             out.append(dict(gate=g, switch=tb, true=true_t, false=false_t[0] if false_t else None))
